@@ -83,7 +83,7 @@ func (r *DefaultRuleRenderer) ProfileToIptablesChains(profileID *types.ProfileID
 	tier := ""
 	inbound = &generictables.Chain{
 		Name: ProfileChainName(ProfileInboundPfx, profileID, r.nft),
-		Rules: r.ProtoRulesToIptablesRules(
+		Rules: r.clearStalePassMark(profile.InboundRules, r.ProtoRulesToIptablesRules(
 			profile.InboundRules,
 			ipVersion,
 			RuleOwnerTypeProfile,
@@ -92,11 +92,11 @@ func (r *DefaultRuleRenderer) ProfileToIptablesChains(profileID *types.ProfileID
 			tier,
 			false,
 			fmt.Sprintf("Profile %s ingress", profileID.Name),
-		),
+		)),
 	}
 	outbound = &generictables.Chain{
 		Name: ProfileChainName(ProfileOutboundPfx, profileID, r.nft),
-		Rules: r.ProtoRulesToIptablesRules(
+		Rules: r.clearStalePassMark(profile.OutboundRules, r.ProtoRulesToIptablesRules(
 			profile.OutboundRules,
 			ipVersion, RuleOwnerTypeProfile,
 			RuleDirEgress,
@@ -104,9 +104,35 @@ func (r *DefaultRuleRenderer) ProfileToIptablesChains(profileID *types.ProfileID
 			tier,
 			false,
 			fmt.Sprintf("Profile %s egress", profileID.Name),
-		),
+		)),
 	}
 	return
+}
+
+// clearStalePassMark makes a profile chain that contains a pass rule start by clearing the pass mark.
+//
+// The per-endpoint chain clears the pass mark at the start of each tier but not before it jumps to the
+// profile chains, so the mark may still be set from the last tier (or from a previous profile's pass rule).
+// A pass rule renders as "if match, set pass mark" followed by "if pass mark set, return"; with a stale
+// mark the second half fires even though the rule did not match and the rest of the profile is skipped.
+// Profiles without pass rules never look at the pass mark, so their chains are left alone.
+func (r *DefaultRuleRenderer) clearStalePassMark(protoRules []*proto.Rule, rules []generictables.Rule) []generictables.Rule {
+	hasPass := false
+	for _, pr := range protoRules {
+		if pr.Action == "pass" || pr.Action == "next-tier" {
+			hasPass = true
+			break
+		}
+	}
+	if !hasPass {
+		return rules
+	}
+	clearRule := generictables.Rule{Match: r.NewMatch(), Action: r.ClearMark(r.MarkPass)}
+	if len(rules) > 0 {
+		// Keep the chain comment on the first rule of the chain.
+		clearRule.Comment, rules[0].Comment = rules[0].Comment, nil
+	}
+	return append([]generictables.Rule{clearRule}, rules...)
 }
 
 func (r *DefaultRuleRenderer) ProtoRulesToIptablesRules(
